@@ -25,8 +25,17 @@ def augment_exception_message_and_reraise(exception, message):
     """Acts as a proxy for an exception with an augmented message."""
     __module__ = type(exception).__module__
 
-    def __init__(self):
-      pass
+    def __init__(self, *args, **kwargs):
+      pass  # Don't run the (arbitrary) `__init__` of the proxied class.
+
+    def __getattribute__(self, attr_name):
+      # Public data (`args`, `errno`, `value`, user attributes, ...) is read
+      # from the original exception, so it is reported faithfully even when the
+      # class defines it at class level (C-level members, class attributes).
+      if attr_name.startswith('_') or attr_name in ('with_traceback',
+                                                    'add_note'):
+        return super().__getattribute__(attr_name)
+      return getattr(exception, attr_name)
 
     def __getattr__(self, attr_name):
       return getattr(exception, attr_name)
@@ -35,9 +44,27 @@ def augment_exception_message_and_reraise(exception, message):
       return str(exception) + message
 
   ExceptionProxy.__name__ = type(exception).__name__
-
-  proxy = ExceptionProxy()
   ExceptionProxy.__qualname__ = type(exception).__qualname__
+
+  # Create the proxy with the original `args` (some classes, e.g. exception
+  # groups, require them in `__new__`). If the class's own `__new__` wants other
+  # arguments, fall back to that of its bases.
+  args = exception.args
+  constructors = [lambda: ExceptionProxy(*args)]
+  constructors += [
+      lambda base=base: base.__new__(ExceptionProxy, *args)
+      for base in type(exception).__mro__[1:]
+      if '__new__' in vars(base) and base is not object
+  ]
+  proxy = None
+  for constructor in constructors:
+    try:
+      proxy = constructor()
+      break
+    except TypeError:
+      continue
+  if proxy is None:
+    raise exception
   raise proxy.with_traceback(exception.__traceback__)
 
 
